@@ -269,7 +269,7 @@ Definition src_tables : tables := {|
                   map tx [""; "X"; "XX"; "XXX"; "XXXX"; "L"; "LX"; "LXX"; "LXXX"; "LXXXX"]%string;
                   map tx [""; "C"; "CC"; "CCC"; "CCCC"; "D"; "DC"; "DCC"; "DCCC"; "DCCCC"]%string;
                   map tx [""; "M"; "MM"; "MMM"; ""; ""; ""; ""; ""; ""]%string ];
-  t_triples := map tx [""; "thousand"; "million"; "billion"; "trillion"; "quadrillion"; "quantillion";
+  t_triples := map tx [""; "thousand"; "million"; "billion"; "trillion"; "quadrillion"; "quintillion";
                        "sextillion"; "septillion"; "octillion"; "nonillion"; "decillion"; "undecillion";
                        "duodecillion"; "tredecillion"; "quattuordecillion"; "quindecillion"; "sexdecillion";
                        "septendecillion"; "octodecillion"; "novemdecillion"; "vigintillion"]%string;
